@@ -173,8 +173,9 @@ Example C20_table_refuses_new_iteration :
 Proof. vm_compute. repeat split; reflexivity. Qed.
 
 (** The flag "goes through a sort" of a site is a textual criterion; the theorem behind it needs the sort key to
-    be the map's own key.  It is for `sorted_by_layer`; it is not for `Layers::from_proto`, which sorts the layers
-    of a technology by the layer number TRUNCATED to `i16` while the map is keyed by the 64-bit index: *)
+    be the map's own key.  It is for `sorted_by_layer`; it was not for `Layers::from_proto` after its first repair
+    (/repo commit ff55d4d), which sorted the layers of a technology by the layer number TRUNCATED to `i16` while the
+    map is keyed by the 64-bit index (the function has its own model and theorems at the end of this file): *)
 Theorem C20_sort_by_truncated_key_refuted :
   exists l1 l2 : list (Z * Z), NoDup (map fst l1) /\ Permutation l1 l2 /\
     isort (map (fun e => (wrap16 (fst e), snd e)) l1) <> isort (map (fun e => (wrap16 (fst e), snd e)) l2).
@@ -431,3 +432,139 @@ Print Assumptions C20_lef_import_export_values_orig_refuted.
 Print Assumptions C20_lef_export_import_dist.
 Print Assumptions C20_lef_reexport_outcome.
 Print Assumptions C20_lef_export_reimport_no_size.
+
+(** * technology protobuf -> layer table (`Layers::from_proto`, layout21raw/src/proto.rs; model Raw/RawLayersProto.v,
+      proofs Raw/RawLayersProto_proofs.v)
+
+    [LP.tlayer] is one `LayerInfo` of the technology: `index` and `sub_index` (u64 in the schema, [Z] here) and the optional
+    purpose type number.  The function files every entry under its 64-bit index in a local hash map (a new index creates
+    `Layer::from_num(index as i16)`, [wrap16]) with `add_purpose(sub_index as i16, purpose)`, then ITERATES the map, sorts
+    what the iterator yielded by the map key and adds the layers to a fresh table.  [LP.from_proto ord tech] transcribes
+    it with the iterator as the ORDER ORACLE [ord : LP.lmap -> LP.lmap] ([LP.lmap] = the association list of the map's
+    entries); an oracle is any function that returns a permutation of the entries.  The result [LP.res layers] is the
+    table as the list of its slots in key order ([layers] of Raw/RawData.v: a [layer] is its number, its name and the
+    `add_purpose` calls made on it, in order), or the error of `add_purpose`.
+    [LP.from_proto_with v] has the text of the second loop as the argument [v]: [LP.SortByKey] (the tree, = [LP.from_proto]),
+    [LP.SortByNum] (commit ff55d4d: stable sort by the truncated number), [LP.NoSort] (as found, = [LP.from_proto_orig]);
+    which one /repo has is read from the source on every run (tools/props/c20.py layers_variant). *)
+From Coq Require Import Sorted.
+From L21 Require Raw.RawLayersProto Raw.RawLayersProto_proofs.
+Module LP := Raw.RawLayersProto.
+Module LPP := Raw.RawLayersProto_proofs.
+
+(** (a) for any two iteration orders of the hash map the function returns the same table; every technology, no bound *)
+Theorem C20_layers_from_proto_order_independent :
+  forall (ord1 ord2 : LP.lmap -> LP.lmap) (tech : list LP.tlayer),
+    (forall m, Permutation (ord1 m) m) -> (forall m, Permutation (ord2 m) m) ->
+    LP.from_proto ord1 tech = LP.from_proto ord2 tech.
+Proof. exact LPP.from_proto_order_independent. Qed.
+
+(** the same without oracle functions: [m] is what the map holds after the first loop, [p1] and [p2] are any two
+    permutations of its entries; the second loop ([LP.visit]: sort; [LP.add_all]: `Layers::add` one by one) gives one table *)
+Theorem C20_layers_from_proto_any_permutation :
+  forall (tech : list LP.tlayer) (m p1 p2 : LP.lmap), LP.collect [] tech = Ok m ->
+    Permutation p1 m -> Permutation p2 m ->
+    LP.add_all (LP.visit LP.SortByKey p1) = LP.add_all (LP.visit LP.SortByKey p2).
+Proof. exact LPP.from_proto_any_permutation. Qed.
+
+(** (b) what the table is.  The function never fails.  It returns one layer per distinct index of the technology, in
+    STRICTLY ascending order of the index; the layer of index [k] is [LP.layer_for tech k] =
+    [mklayer (wrap16 k) None (LP.pairs_for tech k)]: number `k as i16`, no name, and as `add_purpose` calls exactly the
+    pairs (`sub_index as i16`, purpose) of the entries of the technology whose index is [k], in input order, where the
+    purpose is `Label` for a purpose message of type LABEL and `Other(sub_index as i16)` otherwise (no message included).
+    ([keys] is unique: [LPP.sorted_same_members_eq], two strictly ascending lists with the same members are equal.) *)
+Theorem C20_layers_from_proto_spec :
+  forall (ord : LP.lmap -> LP.lmap) (tech : list LP.tlayer), (forall m, Permutation (ord m) m) ->
+    exists keys : list Z,
+      LP.from_proto ord tech = Ok (map (LP.layer_for tech) keys) /\
+      StronglySorted Z.lt keys /\
+      (forall k, In k keys <-> In k (map LP.tl_index tech)).
+Proof. exact LPP.from_proto_spec. Qed.
+
+(** (b) in closed form, without [exists]: [LP.table_spec tech] = [map (LP.layer_for tech) (LP.spec_keys tech)], where
+    [LP.spec_keys tech] is the list of the indices of the technology with duplicates removed, sorted (Raw/RawLayersProto.v,
+    a definition that consults no map and no oracle; it is also what the correspondence run compares the
+    implementation's table with, next to the model) *)
+Theorem C20_layers_from_proto_closed_form :
+  forall (ord : LP.lmap -> LP.lmap) (tech : list LP.tlayer), (forall m, Permutation (ord m) m) ->
+    LP.from_proto ord tech = Ok (LP.table_spec tech).
+Proof. exact LPP.from_proto_closed_form. Qed.
+
+(** every text of the second loop returns a table, for any oracle whatever (no error, no panic) *)
+Theorem C20_layers_from_proto_total :
+  forall v ord tech, exists ly, LP.from_proto_with v ord tech = Ok ly.
+Proof. exact LPP.from_proto_with_total. Qed.
+
+(** (c) WITHOUT the sort -- the code before /repo commit ff55d4d, `for layer in layers_by_number.values()` -- two
+    iteration orders give two tables (two layers, indices 1 and 2) *)
+Theorem C20_layers_from_proto_orig_refuted :
+  exists (tech : list LP.tlayer) (ord1 ord2 : LP.lmap -> LP.lmap) (r1 r2 : layers),
+    (forall m, Permutation (ord1 m) m) /\ (forall m, Permutation (ord2 m) m) /\
+    LP.from_proto_orig ord1 tech = Ok r1 /\ LP.from_proto_orig ord2 tech = Ok r2 /\ r1 <> r2.
+Proof. exact LPP.from_proto_orig_refuted. Qed.
+
+(** and with the sort of the first repair (commit ff55d4d: by `layernum`, the truncated index): indices 1 and 65537 *)
+Theorem C20_layers_from_proto_sort_by_num_refuted :
+  exists (tech : list LP.tlayer) (ord1 ord2 : LP.lmap -> LP.lmap) (r1 r2 : layers),
+    (forall m, Permutation (ord1 m) m) /\ (forall m, Permutation (ord2 m) m) /\
+    LP.from_proto_with LP.SortByNum ord1 tech = Ok r1 /\ LP.from_proto_with LP.SortByNum ord2 tech = Ok r2 /\ r1 <> r2.
+Proof. exact LPP.from_proto_sort_by_num_refuted. Qed.
+
+Check C20_layers_from_proto_order_independent :
+  forall (ord1 ord2 : LP.lmap -> LP.lmap) (tech : list LP.tlayer),
+    (forall m, Permutation (ord1 m) m) -> (forall m, Permutation (ord2 m) m) -> LP.from_proto ord1 tech = LP.from_proto ord2 tech.
+Check C20_layers_from_proto_any_permutation :
+  forall (tech : list LP.tlayer) (m p1 p2 : LP.lmap), LP.collect [] tech = Ok m -> Permutation p1 m -> Permutation p2 m ->
+    LP.add_all (LP.visit LP.SortByKey p1) = LP.add_all (LP.visit LP.SortByKey p2).
+Check C20_layers_from_proto_spec :
+  forall (ord : LP.lmap -> LP.lmap) (tech : list LP.tlayer), (forall m, Permutation (ord m) m) ->
+    exists keys : list Z, LP.from_proto ord tech = Ok (map (LP.layer_for tech) keys) /\
+      StronglySorted Z.lt keys /\ (forall k, In k keys <-> In k (map LP.tl_index tech)).
+Check C20_layers_from_proto_closed_form :
+  forall (ord : LP.lmap -> LP.lmap) (tech : list LP.tlayer), (forall m, Permutation (ord m) m) -> LP.from_proto ord tech = Ok (LP.table_spec tech).
+Check C20_layers_from_proto_total : forall v ord tech, exists ly, LP.from_proto_with v ord tech = Ok ly.
+Check C20_layers_from_proto_orig_refuted :
+  exists (tech : list LP.tlayer) (ord1 ord2 : LP.lmap -> LP.lmap) (r1 r2 : layers),
+    (forall m, Permutation (ord1 m) m) /\ (forall m, Permutation (ord2 m) m) /\
+    LP.from_proto_orig ord1 tech = Ok r1 /\ LP.from_proto_orig ord2 tech = Ok r2 /\ r1 <> r2.
+Check C20_layers_from_proto_sort_by_num_refuted :
+  exists (tech : list LP.tlayer) (ord1 ord2 : LP.lmap -> LP.lmap) (r1 r2 : layers),
+    (forall m, Permutation (ord1 m) m) /\ (forall m, Permutation (ord2 m) m) /\
+    LP.from_proto_with LP.SortByNum ord1 tech = Ok r1 /\ LP.from_proto_with LP.SortByNum ord2 tech = Ok r2 /\ r1 <> r2.
+Check (LP.from_proto : (LP.lmap -> LP.lmap) -> list LP.tlayer -> LP.res layers).
+
+(** ** Non-vacuity.  A technology of seven entries over three indices -- 5 and 65541 share the layer number 5 --, with a
+    sub-index beyond `i16` (70000 -> 4464), an absent purpose, LABEL and other types, and one (index, sub_index) pair
+    given twice.  The identity and the reversal are oracles; they hand the second loop DIFFERENT lists; the function
+    returns the same table under both: index 5, then 7, then 65541, each with its `add_purpose` calls in input order.
+    The unsorted second loop gives two different tables on the same input. *)
+Definition lp_tech : list LP.tlayer :=
+  [LP.mktl 65541 1 (Some 1); LP.mktl 7 0 (Some 2); LP.mktl 5 2 None; LP.mktl 7 70000 (Some 3);
+   LP.mktl 5 2 (Some 1); LP.mktl 65541 9 (Some 4); LP.mktl 7 1 (Some 1)].
+Definition lp_table : layers :=
+  [mklayer 5 None [(2, Other 2); (2, Label)];
+   mklayer 7 None [(0, Other 0); (4464, Other 4464); (1, Label)];
+   mklayer 5 None [(1, Label); (9, Other 9)]].
+
+Example C20_layers_from_proto_nonvacuous :
+  (forall m : LP.lmap, Permutation ((fun x => x) m) m) /\ (forall m : LP.lmap, Permutation (rev m) m) /\
+  (exists m, LP.collect [] lp_tech = Ok m /\ map fst m = [65541; 7; 5] /\ rev m <> m) /\
+  LP.from_proto (fun m => m) lp_tech = Ok lp_table /\ LP.from_proto (@rev _) lp_tech = Ok lp_table /\
+  lp_table = map (LP.layer_for lp_tech) [5; 7; 65541] /\ LP.table_spec lp_tech = lp_table /\
+  (* the derived lookups: `Layers.nums[5]` is the key of the LAST layer numbered 5; purps / nums of the first layer *)
+  ly_keynum lp_table 5 = Some 2%nat /\ layer_purpose (nth 0 lp_table (layer_from_num 0)) 2 = Some Label /\
+  layer_pnum (nth 0 lp_table (layer_from_num 0)) (Other 2) = Some 2 /\
+  LP.from_proto_orig (fun m => m) lp_tech <> LP.from_proto_orig (@rev _) lp_tech.
+Proof.
+  split; [exact LPP.lperm_id|]. split; [exact LPP.lperm_rev|].
+  split; [eexists; split; [vm_compute; reflexivity|split; [reflexivity|discriminate]]|].
+  vm_compute. repeat split; try reflexivity. discriminate.
+Qed.
+
+Print Assumptions C20_layers_from_proto_order_independent.
+Print Assumptions C20_layers_from_proto_any_permutation.
+Print Assumptions C20_layers_from_proto_spec.
+Print Assumptions C20_layers_from_proto_closed_form.
+Print Assumptions C20_layers_from_proto_total.
+Print Assumptions C20_layers_from_proto_orig_refuted.
+Print Assumptions C20_layers_from_proto_sort_by_num_refuted.
